@@ -145,9 +145,10 @@ def check_L5(report, facts, rule):
     n = 0
     for value, calls in pl.all_paths():
         tables = []
-        for c in calls:
+        from .layout import item_passes
+        for nm, c, its in item_passes(facts, calls):
             f = facts.funcs.get(c.name)
-            if f is None or c.mapped or not (c.args and c.args[0][0] == 'items'):
+            if f is None:
                 continue
             params = [a.arg for a in f.args.args]
             if 'labels' not in params:
